@@ -40,6 +40,7 @@ bool uni_from_post(const char* ch, usize len, uint32 ret)
   return true;
 }
 usize g_fk; // ghost byte index (fromHex loop invariant)
+char g_HEX[17]; // "0123456789ABCDEF" (spec table used by the fromHex loop invariant)
 bool uni_valid_post(const char* ch, usize len, bool ret)
 {
   // a string consisting of ASCII only is valid; a string whose first byte is a continuation
@@ -123,6 +124,8 @@ void h_fromHex()
   byte* data = (byte*)new char[size];
   data[k] = v;
   g_fk = k;
+  for(int i = 0; i < 16; i++) g_HEX[i] = HEX[i];
+  g_HEX[16] = 0;
   g_sbuf = 0; g_scap = 0; g_slen = 0;
   String r = String::fromHex(data, size);
   NV_CHECK(g_slen == 2 * size, "fromHex: result length == 2 * size");
